@@ -3,6 +3,7 @@ SPEC = {
     "theorems": [
         "AM.Silence.merge_refuses_past_retention", "AM.Silence.merge_monotone", "AM.Silence.merge_result",
         "AM.Silence.merge_idem_no_gossip", "AM.Silence.merge_old_no_gossip",
+        "AM.Silence.accepted_iff_changed", "AM.Silence.merge_relays_accepted", "AM.Silence.merge_update_relayed",
         "AM.Silence.merge_comm", "AM.Silence.fold_merge_perm",
         "AM.Silence.newest_wins", "AM.Silence.converges",
         "AM.Silence.decodeBatch_last_wins", "AM.Silence.mergeBatch_st",
